@@ -41,6 +41,9 @@ class Z:
         self.pmemo = {}
         self.rmemo = {}
         self.normal_form = 0
+        self.ground = True
+        self.ground_hits = 0
+        self.smemo = {}
 
     def zenv(self, name):
         return self.zv.setdefault(name, z3.Real(name))
@@ -49,6 +52,18 @@ class Z:
         """returns ('unsat'|'sat'|'unknown', model dict) for the query a != b"""
         if a is b:
             return 'unsat', {}
+        # ground instance first: an exact rational evaluation at a generic point refutes a wrong identity in milliseconds
+        # (a concrete witness; the replay confirms it).  Identities that hold are never affected: they go on to the solver.
+        if not assumptions and self.ground:
+            try:
+                sm = self.smemo
+                pt = dag.generic_point(dag.support(a, sm) | dag.support(b, sm))
+                em = {}
+                if dag.eval_exact(a, pt, em) != dag.eval_exact(b, pt, em):
+                    self.queries += 1; self.ground_hits += 1
+                    return 'sat', {k: float(v) for k, v in pt.items()}
+            except (NotImplementedError, ZeroDivisionError, OverflowError):
+                pass
         # polynomial identities: exact normal form first, z3 decides the residual  (residual == 0 is `unsat` at once;
         # a non-zero residual gives a concrete counterexample).  Non-polynomial terms go to z3 as they are.
         zclaim = None
